@@ -128,6 +128,20 @@ def label(x):
     return re.sub(r" object at 0x[0-9a-f]+", "", repr(x))
 
 
+def canon(x):
+    """a text that identifies a value up to the iteration order of sets (repr() of a set depends on the hash seed and on
+    the order in which its elements were inserted, so the repr of a set and of its deep copy can differ)"""
+    if isinstance(x, (set, frozenset)):
+        return "%s{%s}" % (type(x).__name__, ", ".join(sorted(canon(e) for e in x)))
+    if isinstance(x, list):
+        return "[%s]" % ", ".join(canon(e) for e in x)
+    if isinstance(x, tuple):
+        return "(%s)" % ", ".join(canon(e) for e in x)
+    if isinstance(x, dict):
+        return "{%s}" % ", ".join("%s: %s" % (canon(k), canon(v)) for k, v in x.items())
+    return label(x)
+
+
 def norm(x):
     if isinstance(x, (list, tuple)):
         return [norm(e) for e in x]
@@ -194,10 +208,10 @@ def run(tier="quick", seed=0, pid=None):
         try:
             d = JC.dump(x)
         except Exception as e:     # noqa
-            fail("C15", "plain_roundtrip", {"value": repr(x)}, "dump raised %s: %s" % (type(e).__name__, e))
+            fail("C15", "plain_roundtrip", {"value": canon(x)}, "dump raised %s: %s" % (type(e).__name__, e))
             continue
-        if repr(x) != repr(before):
-            fail("C15", "argument_unchanged", {"value": repr(before)}, "dump modified its argument: %r" % (x,))
+        if canon(x) != canon(before):
+            fail("C15", "argument_unchanged", {"value": canon(before)}, "dump modified its argument: %s" % canon(x))
 
         def only_json(v):
             if isinstance(v, dict):
@@ -206,19 +220,19 @@ def run(tier="quick", seed=0, pid=None):
                 return all(only_json(w) for w in v)
             return v is None or isinstance(v, (bool, int, float, str))
         if not only_json(d):
-            fail("C15", "only_json_types", {"value": repr(x)}, "dump returned %r" % (d,))
+            fail("C15", "only_json_types", {"value": canon(x)}, "dump returned %r" % (d,))
         dd = copy.deepcopy(d)
         try:
             back = JC.load(d)
         except Exception as e:     # noqa
             if not (isinstance(d, dict) and "__jsonclass__" in d):
-                fail("C15", "plain_roundtrip", {"value": repr(x)}, "load raised %s: %s" % (type(e).__name__, e))
+                fail("C15", "plain_roundtrip", {"value": canon(x)}, "load raised %s: %s" % (type(e).__name__, e))
             continue
-        if repr(d) != repr(dd):
-            fail("C15", "argument_unchanged", {"value": repr(dd)}, "load modified its argument: %r" % (d,))
+        if canon(d) != canon(dd):
+            fail("C15", "argument_unchanged", {"value": canon(dd)}, "load modified its argument: %s" % canon(d))
         if not (isinstance(x, dict) and "__jsonclass__" in x) and not isinstance(x, (set, frozenset)) and "set" not in repr(x):
             if not same(norm(x), back):
-                fail("C15", "plain_roundtrip", {"value": repr(x)}, "load(dump(x)) == %r" % (back,))
+                fail("C15", "plain_roundtrip", {"value": canon(x)}, "load(dump(x)) == %r" % (back,))
     # C15: load restores its argument when it fails
     bad = {"__jsonclass__": ["collections.OrderedDict", []], "x": {"__jsonclass__": ["no.such.module.K", []]}}
     keep = copy.deepcopy(bad)
@@ -228,7 +242,7 @@ def run(tier="quick", seed=0, pid=None):
     except Exception:      # noqa
         pass
     if bad != keep:
-        fail("C15", "argument_unchanged", {"value": repr(keep)}, "failed load left %r" % (bad,))
+        fail("C15", "argument_unchanged", {"value": canon(keep)}, "failed load left %s" % canon(bad))
     # C15: load never writes into what it is given, whatever the shape of the descriptor (well formed or not)
     names = ["decimal.Decimal", MOD + ".DictBean", MOD + ".Custom", "no.such.module.K", "bad-name", "", 5, None]
     argshapes = ["<absent>", [], ["1"], {"a": 1}, [1, 2], None, "x", [[1]], {}]
@@ -246,8 +260,8 @@ def run(tier="quick", seed=0, pid=None):
                         JC.load(arg)
                     except Exception:      # noqa
                         pass
-                    if repr(arg) != repr(keep):
-                        fail("C15", "argument_unchanged", {"value": repr(keep)}, "load left %r" % (arg,))
+                    if canon(arg) != canon(keep):
+                        fail("C15", "argument_unchanged", {"value": canon(keep)}, "load left %s" % canon(arg))
     # C07: class shapes, at top level, nested, module-qualified and through the local class table
     shapes = ["DictBean", "SlotBean", "MangledSlotBean", "Child1", "Child2", "Child3", "SlotChild", "Custom", "CustomKw",
               "PrivParent", "PrivChildDict", "PrivChildSlots", "PrivGrandChild"]
